@@ -18,7 +18,9 @@ RULE = (
     "(a) every token sequence of length <= N over a 57-token alphabet (every keyword class, punctuator and literal kind, "
     "'#', '@', a #pragma line, a linemarker) after each of 8 context prefixes; (b) Hypothesis-generated token-level "
     "mutations (delete/insert/replace/swap/duplicate/truncate, 1-4 edits) of corpus programs, corner-catalogue programs and "
-    "generated programs; (c) raw character noise; (d) construct splicing: whole constructs (token ranges of declarations, "
+    "generated programs; (c) raw character noise (incl. characters that Python's str predicates take for digits, blanks or letters) and '#' lines built "
+    "from directive heads x line-number fields x file-name fields with hostile pieces (non-ASCII digits, 4400-digit numbers, "
+    "unterminated strings); (d) construct splicing: whole constructs (token ranges of declarations, "
     "statements, expressions, declarators, type names recorded by the model renderer) of one generated program inserted into or "
     "substituted for constructs of another; (e) coverage-guided campaigns (atheris/libFuzzer on the instrumented pycparser package; "
     "bytes decoded into token sequences over a 150-entry vocabulary or into raw text), half from an empty corpus and half from "
@@ -253,6 +255,57 @@ def splice_shard(arg):
 
 
 NOISE = list(" \t\n") + [chr(i) for i in range(33, 127)] + ["\x00", "\x7f", "\xe9", "€", "\r", "\x0c"]
+# characters that satisfy str.isdigit / isspace / isalpha / isidentifier without being
+# what C (or int()) means by digit, blank, letter
+ODD = ["\xb2", "\xb3", "\xb9", "\u2460", "\u0663", "\uff11", "\u0a69", "\x85", "\xa0", "\u2028", "\u3000", "\x1c", "\x0b", "\xaa", "\xb5", "\u2167", "\u00e9", "\ufeff"]
+DIRECTIVE_HEADS = ["#", "# ", "#line ", "# line ", "#\tline\t", "#line", "#pragma ", "#pragma", "# pragma ", "_Pragma(", "%:", "#\x0c", "#\xa0"]
+NUMBER_BITS = ["0", "1", "9", "07", "10", "123", "0x1", "1u", "1L", "1ull", "1.5", "1e3", "+1", "-1", "08", "1 2", "1'", "١", "99999999999999999999", "9" * 400, "1" * 4400, "0" * 5000 + "1"]
+FILE_BITS = ['"g.c"', '"a b.c"', '"d\\\\e.c"', '"q\\"r.c"', '""', '"g.c', 'g.c"', "'g.c'", '<g.c>', 'L"g.c"', '"g.c" 1', '"g.c" 1 3 4', '"g.c" x', '"g.c" "h.c"', '"' + "f" * 3000 + '.c"', '"\xb2.c"']
+
+
+def directive_shard(arg):
+    """'#' lines of every shape: directive heads x line-number fields x file-name
+    fields built from ordinary and hostile pieces (characters that Python's str
+    predicates accept but int() or the C grammar do not, very long digit runs,
+    unterminated strings), at the start, in the middle of a declaration and
+    inside a function body."""
+    seed, n = arg
+    st = Stats()
+
+    def piece(c, pool):
+        s = c.choice(pool)
+        if c.chance(0.3):
+            i = c.below(len(s) + 1) if len(s) < 50 else c.below(50)
+            s = s[:i] + c.choice(ODD) + s[i:]
+        return s
+
+    def body(c):
+        head = c.choice(DIRECTIVE_HEADS)
+        parts = [head]
+        if c.chance(0.85):
+            parts.append(piece(c, NUMBER_BITS))
+        if c.chance(0.6):
+            parts.append(c.choice([" ", "", "\t", "  "]))
+            parts.append(piece(c, FILE_BITS))
+        if c.chance(0.2):
+            parts.append(c.choice([" ", ""]) + piece(c, NUMBER_BITS))
+        line = "".join(parts)
+        where = c.below(4)
+        if where == 0:
+            src = line + "\nint x;\n"
+        elif where == 1:
+            src = "int x;\n" + line + "\nint y;"
+        elif where == 2:
+            src = "int\n" + line + "\nx = 1;"
+        else:
+            src = "void f(void) {\n" + line + "\n x; }" + c.choice(["", "\n" + line])
+        fname = c.choice(["f.c", "", "dir/f.c"])
+        _oracle_text(src, 10, fname, st, "noise")
+        st.classes["directive_lines"] += 1
+
+    hyp_search(body, seed, n, st)
+    return st
+
 
 
 def noise_shard(arg):
@@ -265,7 +318,9 @@ def noise_shard(arg):
         # noise gets past the first token reasonably often
         chars = []
         for _ in range(ln):
-            if c.chance(0.5):
+            if c.chance(0.04):
+                chars.append(c.choice(ODD))
+            elif c.chance(0.5):
                 chars.append(c.choice(NOISE))
             else:
                 chars.append(c.choice(["int ", "x", "(", ")", "{", "}", ";", "'", '"', "\\", "#", "1", ".", "*", "[", "]", "=", ",", "T ", "\n"]))
@@ -327,6 +382,7 @@ def run(ctx):
     ctx.map(splice_shard, [(s, ctx.pick(1500, 40000)) for s in ctx.shard_seeds(16, 4)])
     nnoise = ctx.pick(1500, 25000)
     ctx.map(noise_shard, [(s, nnoise) for s in ctx.shard_seeds(16, 2)])
+    ctx.map(directive_shard, [(s, ctx.pick(600, 12000)) for s in ctx.shard_seeds(16, 9)])
     cj = os.path.join(ctx.here, "corpus", "fuzz_c06.json")
     if os.path.exists(cj):
         import json
@@ -336,7 +392,7 @@ def run(ctx):
         ctx.map(fuzz_replay_shard, [(ctx.here, lo, lo + step) for lo in range(0, ncorp, step)])
     from ..fuzzdrive import campaign_args
 
-    ctx.map(fuzz_shard, campaign_args(ctx, 10, 20, 25000, 600000, 6))
+    ctx.map(fuzz_shard, campaign_args(ctx, 6, 20, 12000, 600000, 6))
     ctx.exhaustive = True
     ctx.extra["exhaustive_bounds"] = bounds
     ctx.extra["mutation_bases"] = len(bases())
